@@ -18,6 +18,7 @@ INVARIANTS
   C17_BacklogBound
   C17_WorkerBound
   C17_AllocSize
+  C17_BackoffCoversFailures
   C18_RunningShape
   C18_FinishedShape
   C18_StartEndOnce
